@@ -282,6 +282,13 @@ func init() {
 					var ob bytes.Buffer
 					writeRaw(f, other, &ob)
 				}
+				if rep%6 == 4 && f == "ttml" {
+					// a write with options in between (this list's or the other caller's): the next write without
+					// options is what it was
+					var ob bytes.Buffer
+					s.WriteToTTML(&ob, astisub.WriteToTTMLWithIndentOption([]string{"\t", "", " "}[rep%3]))
+					other.WriteToTTML(&ob, astisub.WriteToTTMLWithIndentOption("  "))
+				}
 				out := write(f)
 				if prev, ok := first[f]; ok && prev != out {
 					return "diff bytes " + f
@@ -352,7 +359,7 @@ func genStyledSubs(r *rng) *astisub.Subtitles {
 			sa.SSAOutline = f64p(float64(r.intn(4)))
 		}
 		if r.bool() {
-			sa.TTMLColor = strp([]string{"#ff0000", "white"}[r.intn(2)])
+			sa.TTMLColor = strp([]string{"#ff0000", "white", "#00ffff", "#00FFFF", "#ffff00", "#ff00ff", "#00ff00"}[r.intn(7)])
 		}
 		if r.bool() {
 			sa.TTMLTextAlign = strp("center")
